@@ -148,12 +148,12 @@ Theorem C11_powerloss_protocol_atomic : forall s0 f tmp target chunks mid tail,
 Proof. exact durable_protocol_lemma. Qed.
 Print Assumptions C11_powerloss_protocol_atomic.
 
-Theorem C11_dump_powerloss_atomic : forall s0 f tmp target data_ cuts,
+Theorem C11_dump_powerloss_atomic : forall s0 f tmp target pieces cuts,
   wf (ks s0) -> names (ks s0) tmp = None -> tmp <> target ->
   (forall i, i < next (ks s0) -> durable s0 i = data (ks s0) i) ->
-  powerloss_atomic s0 (compile no_bufs (dump_uops f tmp target [(data_, None)] cuts)) target
-                   (read (ks s0) target) data_.
-Proof. exact dump_powerloss_lemma. Qed.
+  powerloss_atomic s0 (compile no_bufs (dump_uops f tmp target pieces cuts)) target
+                   (read (ks s0) target) (concat (map fst pieces)).
+Proof. exact dump_powerloss_general_lemma. Qed.
 Print Assumptions C11_dump_powerloss_atomic.
 
 (* Without the fsync -- or with its failure ignored, so that the rename still happens --
